@@ -227,7 +227,8 @@ def make_tables(rng, n, mc, ra_dt):
                  mc_user=r.randint(0, 100, n).astype(np.int16))
         d['sin_true_dec'] = np.sin(d['true_dec'])
         w_ = r.uniform(0.5, 1.5, n)
-        d['bkg_prob'] = (w_ / w_.sum()).astype(np.float32)      # a pre-computed user field; float64 sum != 1
+        # a pre-computed user field, normalised only within the tolerance RandomChoice accepts (sum = 1 + 1e-4)
+        d['bkg_prob'] = (w_ / w_.sum() * (1 + 1e-4)).astype(np.float32)
     return DFRA(d, copy=False)
 
 
